@@ -279,9 +279,53 @@ def worker_thread_scope():
     return []
 
 
+def siblings_after_a_left_child():
+    """P > A > G, with G in a plain task that outlives A (A is left, not completed); then a sibling B is created and left under
+    P; P is left before G.  P and A complete only after G was left, once each, and leaving G raises nothing."""
+    order, problems = [], []
+
+    async def main():
+        g_in, g_go = asyncio.Event(), asyncio.Event()
+
+        async def g():
+            try:
+                with ctx.scope("G", completion=lambda m: order.append("G")):
+                    g_in.set()
+                    await g_go.wait()
+                order.append("G-left")
+            except BaseException as e:  # noqa
+                problems.append(f"leaving the innermost scope G raised {e!r}")
+        with ctx.scope("P", completion=lambda m: order.append("P")):
+            with ctx.scope("A", completion=lambda m: order.append("A")):
+                t = asyncio.ensure_future(g())
+                await g_in.wait()
+            order.append("A-left")
+            for k in range(2):
+                with ctx.scope(f"B{k}", completion=lambda m, k=k: order.append(f"B{k}")):
+                    pass
+                await asyncio.sleep(0)
+        order.append("P-left")
+        for _ in range(3):
+            await asyncio.sleep(0)
+        snapshot = list(order)
+        g_go.set()
+        await t
+        for _ in range(3):
+            await asyncio.sleep(0)
+        if "P" in snapshot or "A" in snapshot:
+            problems.append(f"P / A completed while the scope G nested under A was still running (events so far: {snapshot})")
+    asyncio.run(main())
+    for tag in ("P", "A", "G", "B0", "B1"):
+        if order.count(tag) != 1:
+            problems.append(f"completion of {tag} fired {order.count(tag)} times (events {order})")
+    if not problems and not (order.index("G-left") < order.index("A") < order.index("P")):
+        problems.append(f"completions out of order: {order}")
+    return problems
+
+
 def main():
     sys.stdin.read()
-    sp = scripted() or worker_thread_scope()
+    sp = scripted() or worker_thread_scope() or siblings_after_a_left_child()
     if sp:
         print(json.dumps(dict(reproduced=True, detail=dict(problem=sp[0], scenario="scripted"), cases_tried=1), default=str))
         return
